@@ -218,7 +218,7 @@ Definition nd_rel (fuel_out : Prop) (opt : Z) (o : nd_out) (m : res DemuxerData 
 Definition drain_is_generated_subject (fuel : nat) (s : dstate) (ds : list DemuxerData) (err : option gerr) (f1 f2 : nat)
   (p : option Packet) (ps : list Packet) : nd_out :=
   Demuxer_NextData_loop2 mworld unit unit gpb pool unit unit pm_set_m pool_dump_m (parse_data_m err_of P)
-    fuel None tt (d_buffer s) tt (d_opt_size s) go_sk go_prs (with_sk (d_pb s)) (d_pool s) tt tt ds err f1 f2 p ps (world_of s).
+    fuel tt (d_buffer s) tt (d_opt_size s) go_prs go_sk (with_sk (d_pb s)) (d_pool s) tt tt f1 f2 (world_of s) None err p ps ds.
 
 Lemma parse_data_m_eq w ps : parse_data_m err_of P w ps go_prs (Some tt) =
   let w1 := mk_mworld (mw_reader w) (mw_pm w) (mw_groups w ++ [ps]) (mw_consulted w) in
@@ -273,7 +273,7 @@ Definition loop_is_generated_subject (fuel : nat) (s : dstate) (ds : list Demuxe
   (p : option Packet) (ps : list Packet) : nd_out :=
   Demuxer_NextData_loop1 mworld unit unit gpb pool unit unit pm_set_m ctx_err_m (new_pb_m err_of) (pb_next_m err_of)
     pool_dump_m (parse_data_m err_of P) pool_add_m
-    fuel None tt (d_buffer s) tt (d_opt_size s) go_sk go_prs (with_sk (d_pb s)) (d_pool s) tt tt ds err f1 f2 p ps (world_of s).
+    fuel tt (d_buffer s) tt (d_opt_size s) go_prs go_sk (with_sk (d_pb s)) (d_pool s) tt tt f1 f2 (world_of s) None err p ps ds.
 
 Lemma loop_is_generated : forall fuel s ds0 err0 f1 f2 p0 ps0,
   (List.length (d_pool s) + fuel < f2)%nat ->
